@@ -90,6 +90,105 @@ CHECKS = {
         "NRTL only (a DiffusionCurve has no activity-model field); last solver iterate observed through the evaluation trace.",
         "DESIGN.md section 6 C09",
     ),
+
+    "C01": (
+        "Hypothesis property test: per-step mass/component/time identities recomputed from the reported series (invariant over the trajectory)",
+        "Generated-input search over 4 process kinds x 3 permeate modes x built-in/synthetic mixtures x {NRTL, UNIQUAC} x membranes x area/amount "
+        "1e-3..1e3 x 1..8 steps x step lengths removing 1e-6..0.3 of the feed x molar/mass initial composition x self-cooling / 3 programme types "
+        "(non-ideal kinds on generated curve sets); oracle: series lengths, time[k]=k*dt, initial amount/composition/temperature, "
+        "m[k+1]=m[k]-(J1+J2)A dt and m[k+1]w[k+1]=m[k]w[k]-J1 A dt to 1e-12. Exploration.",
+        "identities use only reported quantities; models that raise are counted discards; an evaluation cap protects against non-termination (C10).",
+        "DESIGN.md section 6 C01",
+    ),
+    "C03": (
+        "Hypothesis property test: heat identities recomputed per step + isothermal vs non-isothermal step-0 differential",
+        "Generated-input search as C01 with every case also run through its iso/non-iso sibling; oracle: evaporation heat = sum of permeated mass x "
+        "own latent heat at the step's temperature (component's public method), self-cooling T[k+1]=T[k]-Q/(m cp), programme T[k]=program(k dt) "
+        "incl. programmes that do not pass through the initial temperature, isothermal T constant, identical step-0 fluxes and heats of the two "
+        "siblings, condensation heat present iff a permeate temperature is given. Exploration.",
+        "latent heat and specific heat come from Component methods (verified independently by C13); tolerance 1e-12 (1e-10 programme).",
+        "DESIGN.md section 6 C03",
+    ),
+    "C05": (
+        "Hypothesis differential test: returned fits vs the public best-fit search; permeances used vs fit x constant factor; Arrhenius re-scaling of single-curve fits",
+        "Generated-input search over composition-dependent curve sets (1..3 temperatures, permeances or fluxes, molar or mass), orders n<=2 m<=1, "
+        "with/without initial permeances (kg/SI/GPU) and zero points, start temperature equal to / different from a curve temperature, all "
+        "permeate modes, isothermal / self-cooling / programme processes and the non-ideal curve; oracle: permeance_fits equal find_best_fit on "
+        "Measurements of the same set (coefficients 1e-12, functions 1e-9 on a 5x5 grid, single curve: x Arrhenius factor with the membrane's Ea), "
+        "permeances[k] = FR_i x fit_i(x_ref(k), T[k]) with constant FR_i fixed by step 0. Exploration.",
+        "fits are deterministic; the isothermal model may lag the composition by one step (allowed by the statement) but consistently.",
+        "DESIGN.md section 6 C05",
+    ),
+    "C06": (
+        "Hypothesis metamorphic test: relabelling twin (components, parameters, composition, experiments exchanged) at 5 layers",
+        "Generated-input search; the harness builds the relabelled twin and compares activity coefficients, partial pressures, solver fluxes, "
+        "one-point ideal curve and its metrics, ideal iso/non-iso processes (masses, temperatures, heats equal; fractions complement; separation "
+        "factor and selectivities invert), membrane selectivity. UNIQUAC upper layers use the tau12=tau21 family where the known gamma_2 slip (D1) "
+        "cancels; at the thermodynamic layer D1 is recognised by exact reproduction of the slipped formula. Exploration.",
+        "tolerance 1e-9 plus the conditioning of 1-p and of y/(1-y); process/solver twins compared only for equal evaluation counts.",
+        "DESIGN.md section 6 C06",
+    ),
+    "C07": (
+        "Hypothesis metamorphic test: mole- vs mass-fraction twin at every public entry point",
+        "Generated-input search: the same physical composition as mass fraction and as mole fraction through the flux solver, permeate-composition and "
+        "separation-factor helpers, ideal curve and its metrics, 4 process models and the non-ideal curve (basis of the initial feed varied on one "
+        "curve-set object), and measurement extraction from the same curve set expressed in both bases; oracle: equal results to 1e-9, process feed "
+        "compositions typed weight. Exploration.",
+        "fitted coefficients are compared only through their inputs (measurement points), as the property says; twins compared only for equal evaluation counts.",
+        "DESIGN.md section 6 C07",
+    ),
+    "C11": (
+        "Hypothesis metamorphic test: size-scaling and area/time trade-off twins (power-of-two factors to 1e-13)",
+        "Generated-input search over 4 process kinds x modes x mixtures x factors 2^j and 1e-3..1e3; oracle: area and amount x s leaves fluxes, "
+        "compositions, permeances, temperatures unchanged and scales masses and both heats by s; area x k with step/k leaves every per-step state "
+        "unchanged (no programme), time x 1/k; step-0 fluxes independent of area, amount, step length. Exploration.",
+        "general factors compared at 1e-9 only when both runs used equal evaluation counts per step.",
+        "DESIGN.md section 6 C11",
+    ),
+    "C16": (
+        "Hypothesis stateful test (RuleBasedStateMachine) of fit / find_best_fit histories on one Measurements object + function-evaluation and VLE best-of property tests",
+        "Stateful generation: histories of 2..6 fit / find_best_fit / repeat calls on one shared data object; after every call the object is "
+        "deeply unchanged, the result is bit-identical to the same call on a fresh equal copy and to its own repetition, find_best_fit's loss on "
+        "the supplied data <= every single fit within the requested orders. Plus: PervaporationFunction value = alpha exp(sum a x^(i+1) - sum b x^i/T), "
+        "(f*c) = c*f; fit_vle(data) error <= each single method on built-in VLE files (enumerated) and generated subsets, data untouched, repeat identical. Exploration.",
+        "fits are deterministic on this platform; loss slack 1e-12 relative.",
+        "DESIGN.md section 6 C16",
+    ),
+    "C17": (
+        "Hypothesis round-trip tests + stateful save histories (RuleBasedStateMachine) with SHA-256 invariants and forced name collisions",
+        "Round trips of DiffusionCurve (save / DiffusionCurveSet.load), PervaporationFunction (binary + JSON), Conditions (JSON) and ProcessModel "
+        "(both storage modes; generated by all four process generators) with every numeric field to 1e-9, mixture, physical compositions, units, "
+        "permeate condition, lengths; stateful histories of saves under one membrane directory with directly constructed ProcessModels: after every "
+        "operation all earlier process_* directories are byte-identical; a forced directory-name collision (constant clock) must raise and change nothing. Exploration.",
+        "loading needs built-in mixtures (lookup by name); comments strings are not compared; temporary directories are created and removed per case.",
+        "DESIGN.md section 6 C17",
+    ),
+    "C18": (
+        "Hypothesis property test: admissibility predicate over returned trajectories incl. coarse discretisations",
+        "Generated-input search over all process kinds x mixtures x modes x models with steps removing 10%..1000% of the feed (70%), fine steps (30%) "
+        "and an explicit class of single self-cooling steps that land below 0 K on the last reported state; oracle: a returned trajectory has positive "
+        "finite mass, fractions in [0,1], positive finite temperature, finite fluxes and heats at every reported step; raising is accepted. Exploration.",
+        "any exception counts as raising; the popped look-ahead state is not examined.",
+        "DESIGN.md section 6 C18",
+    ),
+    "C19": (
+        "Enumerated rejection matrix x Hypothesis-generated valid arguments, differential against the valid variant of each call",
+        "The 33 cells (invalid-specification class x entry point reaching it) are enumerated; the otherwise valid arguments are generated; oracle: "
+        "the valid variant(s) return and the invalid variant raises from package code (both permeate conditions incl. p = 0, mixture without "
+        "parameters, NRTL/UNIQUAC without parameters or component constants, curve without data, single experiment without Ea for either component). Exploration "
+        "over arguments, exhaustive over cells.",
+        "any exception type raised inside the package counts as a rejection; cases whose valid variant raises are discards.",
+        "DESIGN.md section 6 C19",
+    ),
+    "C20": (
+        "Hypothesis stateful test (RuleBasedStateMachine) over shared objects: deep snapshots + bit-identical comparison with a forkserver-fresh process",
+        "Stateful generation of 2..12 modelling calls (solver, helpers, partial pressures, ideal/non-ideal curves, 4 processes, fit, find_best_fit, "
+        "measurement extraction, membrane queries) on ONE set of shared objects incl. Composition objects that carry the same number in different "
+        "bases and are used with two mixtures; after every call: shared objects and all built-in Components/Mixtures deeply unchanged, result "
+        "bit-identical to an immediate repetition and (a third of the calls in quick, all in thorough) to the same call made first in a fresh process. Exploration.",
+        "fresh interpreter state = new process forked from a forkserver that imported the package and never called it; comments (datetime) excluded.",
+        "DESIGN.md section 6 C20",
+    ),
 }
 
 NOT_YET = "check not built yet in this round (planned, see DESIGN.md section 6)"
